@@ -92,6 +92,20 @@ pub fn run_op(sign: &Sign, op: &Op, pages: &[Page<'static>]) -> SignOut {
     }
 }
 
+/// `send_pages` with a page list that is pulled lazily, `look` being called every time a page is pulled (the application
+/// watches the sign, or drives something else, between pages).
+pub fn send_pages_lazily(sign: &Sign, pages: &[Page<'static>], look: &dyn Fn()) -> SignOut {
+    let r = catch(std::panic::AssertUnwindSafe(|| match sign.send_pages(pages.iter().inspect(|_| look())) {
+        Ok(PageFlipStyle::Automatic) => SignOut::OkStyle { automatic: true },
+        Ok(PageFlipStyle::Manual) => SignOut::OkStyle { automatic: false },
+        Err(e) => err(e),
+    }));
+    match r {
+        Ok(o) => o,
+        Err(p) => SignOut::Panic(format!("{} at {}", p.msg, short_loc(&p.loc))),
+    }
+}
+
 pub fn mk_sign<B: SignBus + 'static>(bus: Rc<RefCell<B>>, addr: u16, ty: usize) -> Sign {
     Sign::new(bus, Address(addr), TYPES[ty].ty)
 }
